@@ -49,7 +49,7 @@ Reasons(e) == (IF WrongNonce(e) THEN {"nonce"} ELSE {}) \cup (IF CannotPay(e) TH
 Ante(c, e) ==
    CASE c = "RefusedChangesNothing" -> e.ev = "Apply" /\ UpFront(e)
      [] c = "RevertedUnchanged"     -> e.ev = "Apply" /\ ~Applied(e) /\ e.mode = "miner"
-     [] c = "SenderAuthentic"       -> e.ev = "Sender"
+     [] c = "SenderAuthentic"       -> e.ev \in {"Sender", "Resolve"}
      [] OTHER                       -> e.ev = "Apply" /\ Applied(e)
 
 Holds(c, e) ==
@@ -79,14 +79,21 @@ Holds(c, e) ==
      [] c = "SenderAuthentic" ->
           \* "A transaction's sender is the holder of the key that signed exactly its fields for this network; changing any
           \*  field, the network id or using a high-s signature changes the sender or is rejected"
-          IF e.mut = "none" THEN e.res = "same" ELSE e.res \in {"err", "other"}
+          IF e.ev = "Sender" THEN (IF e.mut = "none" THEN e.res = "same" ELSE e.res \in {"err", "other"})
+          \* the same sentence for one transaction OBJECT asked repeatedly, under the signer of this network ("home") and a
+          \* signer for another network id ("foreign"): only the home signer may name the key holder, only for the unmutated
+          \* transaction, and every answer is the one a freshly decoded object gives (it does not depend on what was asked before)
+          ELSE /\ (e.res = "same") <=> (e.signer = "home" /\ e.mut = "none")
+               /\ e.res \in {"same", "err", "other"}
+               /\ e.res = e.fresh
 
 Disc(c, e) ==
    CASE c = "RefusedChangesNothing" -> Reasons(e)
      [] c = "ChargedExactly" -> IF RefundShape(e, Expected(e) - Paid(e), e.tx.price) THEN {"gas_refund"} ELSE InputClass(e)
      [] c = "PoolAccounting" -> IF e.hdr[2] = e.hdr[1] + e.rc.gas /\ e.pool[1] >= e.tx.limit
                                    /\ RefundShape(e, e.rc.gas - (e.pool[1] - e.pool[2]), 1) THEN {"gas_refund"} ELSE InputClass(e)
-     [] c = "SenderAuthentic" -> {e.mut, e.res}
+     [] c = "SenderAuthentic" -> IF e.ev = "Sender" THEN {e.mut, e.res}
+                                 ELSE {e.mut, e.res, "signer_" \o e.signer, IF e.step > 1 THEN "asked_before" ELSE "fresh_object"}
      [] c = "RevertedUnchanged" -> {e.err}
      [] OTHER -> InputClass(e)
 
@@ -96,7 +103,7 @@ Step ==
    /\ l <= Len(TraceLog)
    /\ l' = l + 1
    /\ LET e == TraceLog[l] IN
-      IF e.ev \in {"Apply", "Sender"} /\ "panic" \notin DOMAIN e
+      IF e.ev \in {"Apply", "Sender", "Resolve"} /\ "panic" \notin DOMAIN e
       THEN LET A == { c \in Clauses : Ante(c, e) } IN
            /\ fired' = [c \in Clauses |-> IF c \in A THEN fired[c] + 1 ELSE fired[c]]
            /\ viol' = viol \cup { <<c, Disc(c, e), l>> : c \in { k \in A : ~Holds(k, e) } }
